@@ -179,13 +179,15 @@ func gen(w *bufio.Writer, n int) {
 
 // oracle checks the property itself on the implementation (no model involved).  Every case is
 // built so that the expected answer is known by construction from the property statement:
-//   quoted   split(render(args) \n tail)            = args, no EOF, exactly the tail unread
-//   words    split(w1 ␠ w2 … \n tail)               = the words, byte for byte (bytes >= 0x80 included)
-//   heredoc  split(k=<<T \n text \n T \n tail)      = [k=trim(text)]
-//   cont     split(w1 \ \n w2 \n tail)             = [w1 w2]
-//   next     two commands in one reader              = first call the first, second call the second
-//   inject   named -> key/value, positional -> $0,$1,… in order, tail after -- kept
-//   total    no input makes the splitter panic
+//
+//	quoted   split(render(args) \n tail)            = args, no EOF, exactly the tail unread
+//	words    split(w1 ␠ w2 … \n tail)               = the words, byte for byte (bytes >= 0x80 included)
+//	heredoc  split(k=<<T \n text \n T \n tail)      = [k=trim(text)]
+//	cont     split(w1 \ \n w2 \n tail)             = [w1 w2]
+//	next     two commands in one reader              = first call the first, second call the second
+//	inject   named -> key/value, positional -> $0,$1,… in order, tail after -- kept
+//	total    no input makes the splitter panic
+//
 // Prints `FAIL <class> <hex input> want=… got=…` per failure and a summary line.
 func oracle(w *bufio.Writer, n int) {
 	r := hx.NewRand(hx.SeedFromEnv() ^ 0x5eed)
@@ -281,11 +283,29 @@ func oracle(w *bufio.Writer, n int) {
 			}
 		case 3:
 			counts["cont"]++
-			a, b := plainWord(), plainWord()
-			line := append(append([]byte{}, a...), ' ', '\\', '\n')
-			line = append(line, b...)
-			line = append(append(line, '\n'), tail...)
-			want := fmt.Sprintf("ok eof=false rest=%d args=[%s]", len(tail), encList([][]byte{a, b}))
+			// "a backslash-newline continues the line": outside quotes the pair is simply skipped, wherever
+			// it stands - between words, at the start, at the end, or in the middle of a word (theorem
+			// `continuation`: in every unescaped state of the splitter).  Take a line of plain words and
+			// insert the pair at 1-3 random positions; the words must come back unchanged.
+			k := 1 + r.Intn(4)
+			var ws [][]byte
+			var body []byte
+			for j := 0; j < k; j++ {
+				ws = append(ws, plainWord())
+				if j > 0 {
+					body = append(body, " \t"[r.Intn(2)])
+				}
+				body = append(body, ws[j]...)
+			}
+			for m := 1 + r.Intn(3); m > 0; m-- {
+				at := r.Intn(len(body) + 1)
+				if at > 0 && body[at-1] == '\\' { // not between the backslash and the newline of an earlier pair
+					at--
+				}
+				body = append(body[:at:at], append([]byte{'\\', '\n'}, body[at:]...)...)
+			}
+			line := append(append(append([]byte{}, body...), '\n'), tail...)
+			want := fmt.Sprintf("ok eof=false rest=%d args=[%s]", len(tail), encList(ws))
 			if got := split(line); got != want {
 				fail("cont", line, want, got)
 			}
